@@ -119,15 +119,44 @@ theorem lookupFrames_append_base (fs : Frames) (q : Nat) :
 
 /-! ### `nodeOK` everywhere -/
 
-/-- The frames above the two base frames are declarations the guard allows. -/
-def StackGuard (env : Env) (st : NsStack) : Prop :=
-  ∃ fs : Frames, st = fs ++ base2 ∧ ∀ f ∈ fs, ∀ d ∈ f, declAllowed env d.1 d.2 = true
+/-- What the parser's own tests (`reservedDecl`, recorded in `ValAcc`) and the guard (`declAllowed`:
+    not the prefix `xml`) together give of a declaration: it is none of the reserved ones and no
+    prefixed undeclaration. -/
+def DeclFull (env : Env) (p ns : Nat) : Prop :=
+  p ≠ Env.xmlPrefix ∧ env.prefixStr p ≠ xmlnsName ∧ ns ≠ Env.xmlNamespace ∧
+    env.namespaceStr ns ≠ xmlnsNamespaceUri ∧ (p ≠ Env.emptyPrefix → ns ≠ Env.noNamespace)
 
-theorem declAllowed_facts {env : Env} {p ns : Nat} (h : declAllowed env p ns = true) :
-    p ≠ Env.xmlPrefix ∧ env.prefixStr p ≠ xmlnsName ∧ ns ≠ Env.xmlNamespace ∧ (p ≠ Env.emptyPrefix → ns ≠ Env.noNamespace) := by
-  simp only [declAllowed, Bool.and_eq_true, bne_iff_ne, ne_eq, Bool.or_eq_true, beq_iff_eq] at h
-  obtain ⟨⟨⟨⟨h1, h2⟩, h3⟩, _⟩, h5⟩ := h
-  exact ⟨h1, h2, h3, fun hp => by rcases h5 with h5 | h5; exact absurd h5 hp; exact h5⟩
+/-- The frames above the two base frames are such declarations. -/
+def StackGuard (env : Env) (st : NsStack) : Prop :=
+  ∃ fs : Frames, st = fs ++ base2 ∧ ∀ f ∈ fs, ∀ d ∈ f, DeclFull env d.1 d.2
+
+theorem reservedDecl_false {pfx uri : Str} (h : reservedDecl pfx uri = false) :
+    pfx ≠ xmlnsName ∧ (pfx ≠ ['x', 'm', 'l'] → uri ≠ xmlNamespaceUri) ∧ uri ≠ xmlnsNamespaceUri ∧
+      (pfx ≠ [] → pfx ≠ ['x', 'm', 'l'] → uri ≠ []) := by
+  simp only [reservedDecl, Bool.or_eq_false_iff, Bool.and_eq_false_iff, beq_eq_false_iff_ne, ne_eq,
+    bne_eq_false_iff_eq, Bool.not_eq_false', List.isEmpty_iff, List.isEmpty_eq_false_iff] at h
+  obtain ⟨⟨⟨h1, h2⟩, h3⟩, h4⟩ := h
+  refine ⟨h1, fun hp => ?_, h3, fun hp hx => ?_⟩
+  · rcases h2 with h2 | h2
+    · exact absurd h2 hp
+    · exact h2
+  · rcases h4 with (h4 | h4) | h4
+    · exact absurd h4 hp
+    · exact absurd h4 hx
+    · exact h4
+
+theorem declFull_of_acc {env : Env} (hf : EnvFacts env) {st : NsStack} {p ns : Nat}
+    (ha : ValAcc env st (.namespace p ns)) (hg : declAllowed env p ns = true) : DeclFull env p ns := by
+  obtain ⟨a1, a2, _, _, a5⟩ := ha
+  obtain ⟨r1, r2, r3, r4⟩ := reservedDecl_false a5
+  have g1 : p ≠ Env.xmlPrefix := by simpa [declAllowed] using hg
+  have hpx : env.prefixStr p ≠ ['x', 'm', 'l'] := fun hh =>
+    g1 (hf.prefixStr_inj a1 hf.xmlPrefix_lt (by rw [hh, hf.p1]))
+  refine ⟨g1, r1, fun hn => ?_, r3, fun hp hn => ?_⟩
+  · exact r2 hpx (by rw [hn, hf.ns1]; rfl)
+  · have hpe : env.prefixStr p ≠ [] := fun hh =>
+      hp (hf.prefixStr_inj a1 hf.emptyPrefix_lt (by rw [hh, hf.p0]))
+    exact r4 hpe hpx (by rw [hn, hf.ns0])
 
 /-- A non-empty prefix in scope is bound to a namespace other than "none". -/
 theorem StackGuard.nonempty_bound {env : Env} {st : NsStack} (hg : StackGuard env st) {q ns : Nat}
@@ -145,7 +174,7 @@ theorem StackGuard.nonempty_bound {env : Env} {st : NsStack} (hg : StackGuard en
       rw [hl] at h
       simp only [Option.some.injEq] at h
       subst h
-      exact (declAllowed_facts (hfs f (by simp) _ (findInDecls_some hl))).2.2.2 hq
+      exact (hfs f (by simp) _ (findInDecls_some hl)).2.2.2.2 hq
     | none =>
       rw [hl] at h
       exact ih (fun f' hf' => hfs f' (by simp [hf'])) h
@@ -161,10 +190,10 @@ theorem valueOK_of_acc {env : Env} (hf : EnvFacts env) {st : NsStack} (hg : Stac
     exact ha
   | comment s => exact ha
   | pi target data =>
-    obtain ⟨_, a2, _, a4⟩ := ha
-    simp only [plainPiTarget, Bool.and_eq_true] at h2
-    simp only [valueOK, Bool.and_eq_true, beq_iff_eq]
-    refine ⟨⟨⟨a2, h2.1⟩, h2.2⟩, ?_⟩
+    obtain ⟨_, a2, _, a4, a5⟩ := ha
+    simp only [plainPiTarget] at h2
+    simp only [valueOK, Bool.and_eq_true, beq_iff_eq, bne_iff_ne, ne_eq]
+    refine ⟨⟨⟨a2, h2⟩, by simpa [isReservedPiTarget] using a5⟩, ?_⟩
     cases data with
     | none => rfl
     | some d => simpa [dataAcc] using a4
@@ -181,15 +210,15 @@ theorem valueOK_of_acc {env : Env} (hf : EnvFacts env) {st : NsStack} (hg : Stac
       · exact .inr (a4 hid)
       · exact .inl (by simpa using hid)
   | «namespace» p ns =>
-    obtain ⟨a1, a2, a3, a4⟩ := ha
-    obtain ⟨g1, g2, g3, g4⟩ := declAllowed_facts (by simpa [noReservedDecl] using h1)
+    obtain ⟨g1, g2, g3, g5, g4⟩ := declFull_of_acc hf ha (by simpa [noReservedDecl] using h1)
+    obtain ⟨a1, a2, a3, a4, _⟩ := ha
     have hpne : p ≠ Env.emptyPrefix → env.prefixStr p ≠ [] := fun hp hh =>
       hp (hf.prefixStr_inj a1 hf.emptyPrefix_lt (by rw [hh, hf.p0]))
     have hnne : ns ≠ Env.noNamespace → env.namespaceStr ns ≠ [] := fun hn hh =>
       hn (hf.namespaceStr_inj a2 hf.noNamespace_lt (by rw [hh, hf.ns0]))
     simp only [valueOK, Bool.and_eq_true, bne_iff_ne, ne_eq, Bool.or_eq_true, beq_iff_eq, ncNameNE,
       Bool.not_eq_true', List.isEmpty_eq_false_iff]
-    refine ⟨⟨⟨⟨g1, g3⟩, ?_⟩, ?_⟩, a4⟩
+    refine ⟨⟨⟨⟨⟨g1, g3⟩, g5⟩, ?_⟩, ?_⟩, a4⟩
     · by_cases hp : p = Env.emptyPrefix
       · exact .inl hp
       · exact .inr ⟨⟨⟨a3, hpne hp⟩, g2⟩, g4 hp⟩
@@ -210,7 +239,13 @@ theorem allNodes_root {p : Value → List Tree → Bool} {k : Tree} (h : k.allNo
   cases k with
   | node v ks => rw [allNodes_node, Bool.and_eq_true] at h; exact h.1
 
-theorem StackGuard.push {env : Env} {st : NsStack} (hg : StackGuard env st) {v : Value} {ks : List Tree}
+theorem treeAcc_root {env : Env} {st : NsStack} {k : Tree} (h : TreeAcc env st k) :
+    ValAcc env (ctx k.value k.kids st) k.value := by
+  cases k with
+  | node v ks => rw [treeAcc_node] at h; exact h.1
+
+theorem StackGuard.push {env : Env} (hfacts : EnvFacts env) {st : NsStack} (hg : StackGuard env st)
+    {v : Value} {ks : List Tree} {st' : NsStack} (hacc : ∀ k ∈ ks, TreeAcc env st' k)
     (hk : ∀ k ∈ ks, k.allNodes (noReservedDecl env) = true) : StackGuard env (ctx v ks st) := by
   unfold ctx
   split
@@ -218,9 +253,10 @@ theorem StackGuard.push {env : Env} {st : NsStack} (hg : StackGuard env st) {v :
     refine ⟨kidDecls ks :: fs, rfl, fun f hf d hd => ?_⟩
     rcases List.mem_cons.mp hf with rfl | hf
     · obtain ⟨k, hkm, hv⟩ := kidDecls_mem hd
-      have := allNodes_root (hk k hkm)
-      rw [hv] at this
-      exact this
+      have h1 := allNodes_root (hk k hkm)
+      have h2 := treeAcc_root (hacc k hkm)
+      rw [hv] at h1 h2
+      exact declFull_of_acc hfacts h2 h1
     · exact hfs f hf d hd
   · exact hg
 
@@ -231,7 +267,7 @@ theorem nodeOK_of_acc {env : Env} (hf : EnvFacts env) : ∀ (t : Tree) (st : NsS
     rw [treeAcc_node] at ha
     rw [Tree.forall_node] at hs
     rw [allNodes_node, Bool.and_eq_true, List.all_eq_true] at h1 h2 ⊢
-    have hg' := hg.push (v := v) h1.2
+    have hg' := hg.push hf (v := v) ha.2 h1.2
     refine ⟨?_, fun k hk => ?_⟩
     · obtain ⟨s1, s2, s3, s4⟩ := hs.1
       exact (nodeOK_iff env v ks).mpr ⟨s1, s2, s4, s3, valueOK_of_acc hf hg' ha.1 h1.1 h2.1⟩
